@@ -11,7 +11,7 @@ use serde_json::{json, Value};
 use crate::driver::{CaseReport, Check};
 use crate::model::{
     access_calls, access_calls_reset, built_edges, conflict, ref_data_edges, ref_ranks,
-    root_path_count, user_edges, BitMat, GraphSpec, Kind, TestFn, N_TYPES,
+    root_path_count, user_edges, BitMat, GraphSpec, Kind, TestFn, N_TYPES, N_TYPES_MAX,
 };
 use crate::oracle::Violation;
 use crate::single::hash_of;
@@ -125,8 +125,15 @@ pub fn decode_build_case(t: &mut Tape, x: &mut Tape, max_n: usize, cap: Option<u
     } else {
         t.below(9.min(max_n + 1))
     };
-    let n_types = 1 + t.below(N_TYPES as usize) as u8;
-    let den = [4usize, 3, 6, 10][t.below(4)];
+    // one case in eight uses the large type universe with dense declarations, so
+    // that functions declare more than 8 accesses (mixed reads and writes)
+    let many = t.chance(1, 8);
+    let n_types = if many {
+        9 + t.below((N_TYPES_MAX - 8) as usize) as u8
+    } else {
+        1 + t.below(N_TYPES as usize) as u8
+    };
+    let den = if many { [3usize, 2, 3, 4][t.below(4)] } else { [4usize, 3, 6, 10][t.below(4)] };
     let mut fns = Vec::with_capacity(n);
     for id in 0..n {
         let mut reads = vec![];
@@ -135,9 +142,15 @@ pub fn decode_build_case(t: &mut Tape, x: &mut Tape, max_n: usize, cap: Option<u
             let r = t.below(den);
             if r == den - 1 {
                 writes.push(ty);
-            } else if r == den - 2 {
+            } else if r == den - 2 || (many && den == 2 && r == 0) {
                 reads.push(ty);
             }
+        }
+        if many && t.chance(1, 2) {
+            // declaration order is the caller's business: not sorted
+            reads.reverse();
+            let k = t.below(writes.len().max(1));
+            writes.rotate_left(k);
         }
         if t.chance(1, 30) {
             let ty = t.below(n_types as usize) as u8;
@@ -863,6 +876,29 @@ pub fn check_c17(case: &BuildCase, b: &Built, f: &BuildFacts) -> Vec<Violation> 
                         back.graph.raw_nodes().iter().map(|n| n.weight.clone()).collect();
                     if !(back == gi) || nodes_back != nodes || edges_of(&back) != got_edges {
                         out.push(v("C17", "json-roundtrip", format!("JSON round trip changed the value: {s}")));
+                    }
+                }
+            },
+        }
+        // deserialisers that cannot lend the input (owned strings): value tree and reader
+        match serde_json::to_value(&gi) {
+            Err(e) => out.push(v("C17", "json-value-serialise", e.to_string())),
+            Ok(val) => match serde_json::from_value::<GraphInfo<NodeInfo>>(val) {
+                Err(e) => out.push(v("C17", "json-value-deserialise", format!("from_value: {e}"))),
+                Ok(back) => {
+                    if !(back == gi) || edges_of(&back) != got_edges {
+                        out.push(v("C17", "json-value-roundtrip", "JSON value round trip changed the value".into()));
+                    }
+                }
+            },
+        }
+        match serde_json::to_vec(&gi) {
+            Err(e) => out.push(v("C17", "json-serialise", e.to_string())),
+            Ok(bytes) => match serde_json::from_reader::<_, GraphInfo<NodeInfo>>(std::io::Cursor::new(bytes)) {
+                Err(e) => out.push(v("C17", "json-reader-deserialise", format!("from_reader: {e}"))),
+                Ok(back) => {
+                    if !(back == gi) || edges_of(&back) != got_edges {
+                        out.push(v("C17", "json-reader-roundtrip", "JSON reader round trip changed the value".into()));
                     }
                 }
             },
